@@ -301,7 +301,7 @@ def record_feeders(rec, r, tier, shapes):
     aes, bf, _ = _real()
     n0 = rec.grp
     # S->C: every chunking TLC enumerated in MC_Feeder; one abstract cell = 8 bytes (2 cells = one AES block)
-    per_shape = 6 if tier == "thorough" else 1
+    per_shape = 8 if tier == "thorough" else 1
     for k, (L, sizes) in enumerate(shapes):
         for j in range(per_shape):
             mode, seg, d, p = FEEDER_CFGS[(k * per_shape + j * 11 + k // 28) % len(FEEDER_CFGS)]
